@@ -22,6 +22,7 @@ import Proofs.RegularizationKernel
 import Proofs.RegularizationGaussPD
 import Proofs.RegularizationBlock
 import Proofs.RegularizationRect
+import Proofs.RegularizationDelaunay
 import Proofs.RegularizationReduced
 import Proofs.RegularizationSignals
 import Proofs.RegularizationExpPD
@@ -29,7 +30,8 @@ import Mathlib.Analysis.Real.Sqrt
 import Mathlib.Analysis.SpecialFunctions.Pow.Real
 import Mathlib.Analysis.Complex.Exponential
 
-open Model Model.Mat Model.Spec
+open Model hiding entry entry_zeros
+open Model.Mat Model.Spec
 
 set_option linter.unusedSectionVars false
 
@@ -598,6 +600,54 @@ theorem rect_adaptive_brightness_spec (H W : Nat) (hH : 2 ≤ H) (hW : 2 ≤ W) 
   · rw [hN, hS]; exact h3
   · rw [hN, hS]; exact h4
 
+/-! ## (g′) Delaunay meshes — clauses (a), (b) from Qhull's contract (C06.f)
+
+`Impl.delaunayMeshNeighbors indptr indices n` / `Impl.delaunayMeshSizes …` are `Mesh2DDelaunay.neighbors`
+(C06's `Impl.delaunayNeighbors`, built from scipy's CSR pair `vertex_neighbor_vertices`).  Qhull is not
+modelled; its contract, as C06 states it and the harness checks on every case: the slices are complete,
+slice `k` lists exactly the vertices sharing a simplex with `k`, none twice. -/
+
+/-- (g′) under Qhull's contract the neighbour table of a Delaunay mesh has one row per vertex, reads only
+    valid vertex indices and is symmetric with multiplicity — the hypotheses of clauses (a), (b) -/
+theorem delaunay_neighbors_wellformed (indptr indices : List Nat) (n : Nat) (simplices : List (List Nat))
+    (hfull : ∀ k < n, (csrSlice indptr indices k).length = indptr.getD (k + 1) 0 - indptr.getD k 0)
+    (hcontract : ∀ k < n, ∀ j, j ∈ csrSlice indptr indices k ↔
+      (j < n ∧ j ≠ k ∧ ∃ s ∈ simplices, k ∈ s ∧ j ∈ s))
+    (hnodup : ∀ k < n, (csrSlice indptr indices k).Nodup) :
+    (Impl.delaunayMeshNeighbors indptr indices n).length = n
+    ∧ InRange n (Impl.delaunayMeshNeighbors indptr indices n) (Impl.delaunayMeshSizes indptr indices n)
+    ∧ Symmetric n (Impl.delaunayMeshNeighbors indptr indices n) (Impl.delaunayMeshSizes indptr indices n) :=
+  delaunayMesh_wellformed indptr indices n hfull simplices hcontract hnodup
+
+/-- (g′, a) hence `Constant` on a Delaunay mesh is `n × n`, symmetric, has the pair-sum quadratic form and
+    is strictly positive definite, given only Qhull's contract -/
+theorem delaunay_constant_spec (indptr indices : List Nat) (n : Nat) (simplices : List (List Nat))
+    (hfull : ∀ k < n, (csrSlice indptr indices k).length = indptr.getD (k + 1) 0 - indptr.getD k 0)
+    (hcontract : ∀ k < n, ∀ j, j ∈ csrSlice indptr indices k ↔
+      (j < n ∧ j ≠ k ∧ ∃ s ∈ simplices, k ∈ s ∧ j ∈ s))
+    (hnodup : ∀ k < n, (csrSlice indptr indices k).Nodup) (ρ c : α) (hρ : 0 < ρ) :
+    Dims n (Impl.constantMatrix ρ c (Impl.delaunayMeshNeighbors indptr indices n)
+      (Impl.delaunayMeshSizes indptr indices n))
+    ∧ (∀ i j, entry (Impl.constantMatrix ρ c (Impl.delaunayMeshNeighbors indptr indices n)
+          (Impl.delaunayMeshSizes indptr indices n)) i j
+        = entry (Impl.constantMatrix ρ c (Impl.delaunayMeshNeighbors indptr indices n)
+          (Impl.delaunayMeshSizes indptr indices n)) j i)
+    ∧ (∀ x : List α, x.length = n →
+        quad (Impl.constantMatrix ρ c (Impl.delaunayMeshNeighbors indptr indices n)
+            (Impl.delaunayMeshSizes indptr indices n)) x
+          = (c * c) * ((pairs n (Impl.delaunayMeshNeighbors indptr indices n)
+                (Impl.delaunayMeshSizes indptr indices n)).map fun e =>
+                (x.getD e.1 0 - x.getD e.2 0) * (x.getD e.1 0 - x.getD e.2 0)).sum
+            + ρ * sumSq x)
+    ∧ (∀ x : List α, x.length = n → (∃ i, i < n ∧ x.getD i 0 ≠ 0) →
+        0 < quad (Impl.constantMatrix ρ c (Impl.delaunayMeshNeighbors indptr indices n)
+            (Impl.delaunayMeshSizes indptr indices n)) x) := by
+  obtain ⟨hn, hR, hS⟩ := delaunay_neighbors_wellformed indptr indices n simplices hfull hcontract hnodup
+  exact ⟨(constantMatrix_linfun (linfun_entry n 0 0) ρ c _ _ hn hR).1,
+    fun i j => constantMatrix_symm ρ c _ _ hn hR hS i j,
+    fun x hx => constantMatrix_quad_pairs ρ c _ _ hn hR hS x hx,
+    fun x hx hx0 => constantMatrix_posdef ρ c hρ _ _ hn hR hS x hx hx0⟩
+
 /-! ## (h) the reduced matrix and the list of unregularized parameters
 
 `Impl.noRegIndexList` is `AbstractInversion.no_regularization_index_list` (objects given as
@@ -966,5 +1016,21 @@ example (s : ℝ) (hs : 0 ≤ s) :
 
 example (k : Nat) : (∀ t : α, 0 ≤ t → t ≤ 1 → 0 ≤ t ^ k ∧ t ^ k ≤ 1) ∧ (1 : α) ^ k = 1 :=
   ⟨fun _ h0 h1 => ⟨pow_nonneg h0 k, pow_le_one₀ h0 h1⟩, one_pow k⟩
+
+/-- (g′) Qhull's contract is satisfiable: one triangle `{0,1,2}`, CSR `indptr = [0,2,4,6]`,
+    `indices = [1,2, 0,2, 0,1]`; the table read by the loops and the `Constant` matrix on it -/
+example :
+    let indptr := [0, 2, 4, 6]
+    let indices := [1, 2, 0, 2, 0, 1]
+    (∀ k < 3, (csrSlice indptr indices k).length = indptr.getD (k + 1) 0 - indptr.getD k 0)
+    ∧ (∀ k < 3, ∀ j, j ∈ csrSlice indptr indices k ↔
+        (j < 3 ∧ j ≠ k ∧ ∃ s ∈ [[0, 1, 2]], k ∈ s ∧ j ∈ s))
+    ∧ (∀ k < 3, (csrSlice indptr indices k).Nodup)
+    ∧ Impl.delaunayMeshNeighbors indptr indices 3 = [[1, 2], [0, 2], [0, 1]]
+    ∧ Impl.constantMatrix (1 : Int) 1 (Impl.delaunayMeshNeighbors indptr indices 3)
+        (Impl.delaunayMeshSizes indptr indices 3) = [[3, -1, -1], [-1, 3, -1], [-1, -1, 3]] := by
+  refine ⟨by decide, ?_, by decide, by decide, by decide⟩
+  intro k hk j
+  interval_cases k <;> simp [csrSlice] <;> omega
 
 end C07
